@@ -2,14 +2,15 @@
 
 E2 enumeration on the real efuns with an interposed libc file layer (env/fs.c):
   part legal   : legal_path() against a reference on all 1 398 101 strings of length <= 10 over {a . / #}
-  part paths   : 52 ops x all path strings of length <= 5 (quick) / 7 (thorough) over {a . / #}, each also behind a
+  part paths   : 59 ops (7 of them with two users in ed at once: the master must be asked with the user who typed the
+                 command) x all path strings of length <= 5 (quick) / 7 (thorough) over {a . / #}, each also behind a
                  1100-character component, x {deny, allow} for valid_read and valid_write independently; run on an
                  uninstrumented build of the same harness, and to length 4 / 5 on the sanitizer build
-  part reentrant: the 42 mediated ops x 7 paths x 6 masters whose valid_read/valid_write do file I/O of their own before
+  part reentrant: the 48 mediated ops x 7 paths x 6 masters whose valid_read/valid_write do file I/O of their own before
                  approving with a number (read_file / file_size / get_dir / write_file / read_bytes on another path, and the
                  efun being asked about on the same path); an access must be approved for its own caller
   part faults  : every op x 7 paths x each of its first 20 libc calls failing (EIO; EXDEV on rename; EXDEV then EIO)
-  part rewrite : the 43 mediated ops x master answers "rewrite to p'" for all p' of length <= 3 / 4
+  part rewrite : the 49 mediated ops x master answers "rewrite to p'" for all p' of length <= 3 / 4
                  (both applies / only valid_read / only valid_write rewritten) x 3 input paths
 plus two static inventories taken from the object files of the tree being checked:
   * every libc file-system entry point the driver objects import must be one that env/fs.c wraps;
@@ -187,7 +188,7 @@ RULE = ("every op of {read_file(1,3 args), write_file(append, overwrite), read_b
         "rename/cp/link with the enumerated path as source (target an existing directory / a new name) and as target, "
         "ed(file), ed then w, ed + w/W/r/e file, ed + f file + w/x, ed session saved at remove_interactive() under the name "
         "the master returns, load_object, find_object(,1), clone_object, new, call_other(string), #include \"p\" and <p> from a file in "
-        "the mudlib root and in a subdirectory, inherit \"p\"} x every string over {a . / #} up to the length bound, plain and behind a "
+        "the mudlib root and in a subdirectory, inherit \"p\", the ed file commands again with a second user holding an ed session (caller = the user who typed)} x every string over {a . / #} up to the length bound, plain and behind a "
         "1100-character component, x valid_read/valid_write in {deny, allow}^2; the mediated ops x master rewrites the path to every "
         "p' up to the bound; scratch tree of 28 entries over the same alphabet rebuilt after every mutation; oracle from the log of "
         "47 interposed libc functions ordered against the master's apply log: no path call without a preceding approving apply "
@@ -233,7 +234,7 @@ def finish(ck, notes):
         "the master's answers are data set by the harness (deny / allow / rewrite), so 'approved' is known exactly",
         "operation names accepted per efun are the conventional MudOS names (docs/applies/master/valid_*.md only say 'the calling function name'); sibling names in use today (read_bytes for read_buffer, file_size for file_length, stat for get_dir, remove_file for rm, rename for link, dumpallobj for dump_prog) are accepted",
         "stat()-class calls count as file access: a path with '..' reaching stat() is reported like one reaching open()",
-        "get_dir/stat may touch the approved path, the directory that contains its last component (wild-card match) and entries of either; cp/rename into a directory use dir/basename(source)",
+        "get_dir/stat may touch the approved path and its entries; the directory that contains its last component (wild-card match) only after a failed stat() of the approved path in the same call; cp/rename into a directory use dir/basename(source)",
         "paths are bounded by the alphabet {a . / #} plus one 1100-character component; directory depth <= 3; no symlinks in the tree",
         "evaluation roots live in /dev/shm/verif-fs-<pid> (tmpfs; reachable via build/scratch/p<pid>/shm) and are removed by the harness; VERIF_FS_NO_SHM=1 keeps them under build/scratch",
     ])
